@@ -6,11 +6,13 @@ import Libvna.Driver.VDataDrv
 import Libvna.Model.ConvN
 import Libvna.Driver.NumDrv
 import Libvna.Driver.PropDrv
+import Libvna.Driver.CalDrv
 open Libvna
 
 structure DState where
   vd : Libvna.Drv.VSlots := List.replicate 8 none
   pt : Libvna.Drv.PRegs := List.replicate 4 Libvna.PT.Node.null
+  cal : Libvna.Drv.CalState := {}
 
 def joinHex (xs : List CF) : String := " ".intercalate (xs.map cfToHex)
 
@@ -74,6 +76,7 @@ def step (st : DState) (line : String) : DState × String :=
   | "conv" :: rest => (st, stepConv rest)
   | "convn" :: rest => (st, stepConvN rest)
   | "num" :: rest => (st, stepNum rest)
+  | "cal" :: rest => let (c, o) := Libvna.Drv.stepCal st.cal rest; ({ st with cal := c }, o)
   | "pt" :: rest => let (p, o) := Libvna.Drv.stepPt st.pt rest; ({ st with pt := p }, o)
   | "vd" :: rest => let (v, o) := Libvna.Drv.stepVd st.vd rest; ({ st with vd := v }, o)
   | _ => (st, "bad-op")
